@@ -115,6 +115,13 @@ Section P.
         * apply IH. exists i, e. repeat split; auto. intros j ej Hj Hnj. apply (Hb (S j)); [lia|assumption].
   Qed.
 
+  Lemma resolve_idx_correct es m :
+    resolve Msg es m = match resolve_idx Msg es m with Some i => option_map e_ser (nth_error es i) | None => None end.
+  Proof.
+    induction es as [|e r IH]; cbn; [reflexivity|]. destruct (matches e m); [reflexivity|].
+    rewrite IH. destruct (resolve_idx Msg r m); reflexivity.
+  Qed.
+
   (* a message sent with the serializer resolved for its type is received as itself *)
   Theorem send_receive_roundtrip es m i e b :
     nth_error es i = Some e -> matches e m = true ->
